@@ -3,9 +3,14 @@ C10 — no request or response can make validation of a valid document panic.
 
 Full-strength goal (DESIGN §4):
     valid_doc_no_panic : DocValid d → ∀ traffic, outcome d traffic ≠ panic ∧ outcome d traffic ≠ diverge
-One deviation is left on the current tree, so what is proved is `valid_doc_no_panic_partial` under the
-decidable exclusion `ExclC10`:
-  F-C10-1  UnguardedRecursion  (DESIGN §7 #6, open)  `A: {allOf:[{$ref:A}]}` → unbounded recursion
+Three deviations are left on the current tree, so what is proved is `valid_doc_no_panic_partial` under the
+decidable exclusions `ExclOp` (document) and `UncopyableReq/Resp`, `UnencodableReq/Resp` (traffic):
+  F-C10-1  UnguardedRecursion    (DESIGN §7 #6, open)  `A: {allOf:[{$ref:A}]}` → unbounded recursion
+  F-C10-7  UncopyableYamlKey     (open)  a YAML body `~: 1` (or `.nan: 1`) against a schema with oneOf/anyOf: `deepcopy.Copy`
+           of the decoded value panics inside `ValidateRequest` / `ValidateResponse` (reflect on a zero Value)
+  F-C10-6  UnencodableErrorValue (open)  the error returned for `GET /a?q=NaN&q=1` (array of numbers, maxItems 1) or for a
+           YAML body `1: x` carries a value `encoding/json` refuses; `SchemaError.Error()` panics on the encoder's error.
+           The validation functions themselves return normally: only the error-text conjuncts carry this exclusion.
 Four more classes were found while this check was built and have since been repaired in the repository;
 their theorems are now at full strength and their witness inputs are regression cases in corpus/C10:
   F-C10-2 (8654816) legacy router, request path spells a non-matching template → `legacyFindRoute_no_panic`
@@ -37,9 +42,10 @@ theorem all_sites_discharged_table : PanicSites.allDischarged PanicSites.expecta
 theorem all_sites_discharged : ∀ r ∈ Gen.panicSites, r.discharged PanicSites.expectations = true :=
   PanicSites.discharged_of_all all_sites_discharged_table
 
-/-- no row is discharged as an open finding any more (F-C10-3 and F-C10-4 are repaired) -/
+/-- exactly one row is discharged as an open finding: the two `panic(err)` of `SchemaError.Error` (F-C10-6; the
+    rows of F-C10-3 and F-C10-4 are guarded in the code since their repair) -/
 theorem open_finding_rows :
-    PanicSites.openFindingRows PanicSites.expectations Gen.panicSites = [] := by decide
+    PanicSites.openFindingRows PanicSites.expectations Gen.panicSites = [("SchemaError.Error", "F-C10-6")] := by decide
 
 /-! ## Server.MatchRawURL -/
 
@@ -153,7 +159,8 @@ theorem unguarded_cycle_detected :
 
 theorem validateParameter_no_panic_partial (p : ParamM) (b : Bits) (hwf : p.wf = true)
     (hu1 : ∀ s, p.schema = some s → s.unguarded = false)
-    (hu2 : ∀ m s, p.jsonMedia = some m → m.schema = some s → s.unguarded = false) :
+    (hu2 : ∀ m s, p.jsonMedia = some m → m.schema = some s → s.unguarded = false)
+    (hcf : b.copyFails = false) :
     (validateParameter p b).bad = false := by
   unfold ParamM.wf at hwf
   simp only [Bool.and_eq_true, Bool.not_eq_true'] at hwf
@@ -167,7 +174,7 @@ theorem validateParameter_no_panic_partial (p : ParamM) (b : Bits) (hwf : p.wf =
       split
       · split
         · rfl
-        · exact afterDecode_not_bad _ _ _ (by simp)
+        · exact afterDecode_not_bad _ _ _ (by simp) (by simpa using hcf)
       · split
         · rfl
         · split
@@ -182,7 +189,7 @@ theorem validateParameter_no_panic_partial (p : ParamM) (b : Bits) (hwf : p.wf =
                 simp only
                 split
                 · rfl
-                · exact afterDecode_not_bad _ _ _ (by simp)
+                · exact afterDecode_not_bad _ _ _ (by simp) hcf
               | some s =>
                 simp only
                 have hres : s.resolved = true := by simpa [hj, MediaM.wf, hms, SchemaM.wf] using hm
@@ -190,7 +197,7 @@ theorem validateParameter_no_panic_partial (p : ParamM) (b : Bits) (hwf : p.wf =
                 simp only [hres, Bool.not_true, Bool.false_eq_true, if_false]
                 split
                 · rfl
-                · exact afterDecode_not_bad _ _ _ (by intro x hx'; cases hx'; exact ⟨hres, hung⟩)
+                · exact afterDecode_not_bad _ _ _ (by intro x hx'; cases hx'; exact ⟨hres, hung⟩) hcf
     · cases hsc : p.schema with
       | none => rfl
       | some s =>
@@ -200,10 +207,10 @@ theorem validateParameter_no_panic_partial (p : ParamM) (b : Bits) (hwf : p.wf =
         simp only [hres, Bool.not_true, Bool.false_eq_true, if_false]
         split
         · rfl
-        · exact afterDecode_not_bad _ _ _ (by intro x hx'; cases hx'; exact ⟨hres, hung⟩)
+        · exact afterDecode_not_bad _ _ _ (by intro x hx'; cases hx'; exact ⟨hres, hung⟩) hcf
 
 theorem validateBody_no_panic_partial (rb : BodyM) (b : BodyBits) (hwf : rb.wf = true)
-    (hu : rb.content.any MediaM.unguarded = false) : (validateBody rb b).bad = false := by
+    (hu : rb.content.any MediaM.unguarded = false) (hcf : b.bits.copyFails = false) : (validateBody rb b).bad = false := by
   unfold BodyM.wf at hwf
   simp only [Bool.and_eq_true, Bool.not_eq_true'] at hwf
   obtain ⟨hv, hc⟩ := hwf
@@ -234,10 +241,10 @@ theorem validateBody_no_panic_partial (rb : BodyM) (b : BodyBits) (hwf : rb.wf =
           simp only [hres, Bool.not_true, Bool.false_eq_true, if_false]
           split
           · rfl
-          · exact visit_not_bad _ _ hres hung
+          · exact visit_not_bad _ _ hres hung hcf
 
 theorem validateHeader_no_panic_partial (h : HeaderM) (b : Bits) (hwf : h.wf = true)
-    (hu : ∀ s, h.schema = some s → s.unguarded = false) : (validateHeader h b).bad = false := by
+    (hu : ∀ s, h.schema = some s → s.unguarded = false) (hcf : b.copyFails = false) : (validateHeader h b).bad = false := by
   unfold HeaderM.wf at hwf
   simp only [Bool.and_eq_true, Bool.not_eq_true'] at hwf
   obtain ⟨hv, hs⟩ := hwf
@@ -252,7 +259,7 @@ theorem validateHeader_no_panic_partial (h : HeaderM) (b : Bits) (hwf : h.wf = t
     split
     · rfl
     · split
-      · exact visit_not_bad _ _ hres (hu s hsc)
+      · exact visit_not_bad _ _ hres (hu s hsc) hcf
       · split <;> rfl
 
 /-- the decidable exclusion of the request/response part -/
@@ -261,7 +268,10 @@ def ExclOp (op : OpM) : Bool := UnguardedRecursion op
 /-- `ValidateRequest` on a valid document outside the exclusion: for ALL traffic (all decoder and
     validator answers) the outcome is success or an error, never a panic or unbounded recursion -/
 theorem validateRequest_no_panic_partial (op : OpM) (t : ReqTraffic) (hv : DocValid op = true)
-    (hx : ExclOp op = false) : (validateRequest op t).bad = false := by
+    (hx : ExclOp op = false) (hcp : UncopyableReq op t = false) : (validateRequest op t).bad = false := by
+  unfold UncopyableReq at hcp
+  simp only [Bool.or_eq_false_iff] at hcp
+  obtain ⟨hcp1, hcp2⟩ := hcp
   unfold DocValid at hv
   simp only [Bool.and_eq_true] at hv
   obtain ⟨⟨hp, hb⟩, _⟩ := hv
@@ -282,6 +292,7 @@ theorem validateRequest_no_panic_partial (op : OpM) (t : ReqTraffic) (hv : DocVa
     apply validateParameter_no_panic_partial _ _ hwf
     · intro s hs; simpa [hs] using hun.1
     · intro m s hm hs; simpa [hm, MediaM.unguarded, hs] using hun.2
+    · exact Bool.eq_false_iff.mpr ((List.any_eq_false.mp hcp1) ip hip)
   · cases hbody : op.body with
     | none => simp [hbody] at ho
     | some rb =>
@@ -290,9 +301,13 @@ theorem validateRequest_no_panic_partial (op : OpM) (t : ReqTraffic) (hv : DocVa
       apply validateBody_no_panic_partial
       · simpa [hbody] using hb
       · simpa [hbody] using hub
+      · exact hcp2
 
 theorem validateResponse_no_panic_partial (op : OpM) (t : RespTraffic) (hv : DocValid op = true)
-    (hx : ExclOp op = false) : (validateResponse op t).bad = false := by
+    (hx : ExclOp op = false) (hcp : UncopyableResp op t = false) : (validateResponse op t).bad = false := by
+  unfold UncopyableResp at hcp
+  simp only [Bool.or_eq_false_iff] at hcp
+  obtain ⟨hcp1, hcp2⟩ := hcp
   unfold DocValid at hv
   simp only [Bool.and_eq_true] at hv
   obtain ⟨_, hr⟩ := hv
@@ -321,16 +336,17 @@ theorem validateResponse_no_panic_partial (op : OpM) (t : RespTraffic) (hv : Doc
         simp only [Bool.or_eq_false_iff] at hun
         split
         · rfl
-        · have hh : (seq ((zipIdx r.headers 0).map (fun ih => validateHeader ih.2 (t.headerBits ih.1)))).bad = false := by
+        · have hh : (seq false ((zipIdx r.headers 0).map (fun ih => validateHeader ih.2 (t.headerBits ih.1)))).bad = false := by
             apply seq_not_bad
             intro o ho
             simp only [List.mem_map] at ho
             obtain ⟨ih, hih, rfl⟩ := ho
             have hmemh := mem_zipIdx _ _ _ hih
             apply validateHeader_no_panic_partial _ _ (List.all_eq_true.mp hwf.1 ih.2 hmemh)
-            intro s hs
-            have := (List.any_eq_false.mp hun.1) ih.2 hmemh
-            simpa [hs] using this
+            · intro s hs
+              have := (List.any_eq_false.mp hun.1) ih.2 hmemh
+              simpa [hs] using this
+            · exact Bool.eq_false_iff.mpr ((List.any_eq_false.mp (Bool.eq_false_iff.mpr ((List.any_eq_false.mp hcp1) r hmem))) ih hih)
           split
           · split
             · rfl
@@ -357,7 +373,7 @@ theorem validateResponse_no_panic_partial (op : OpM) (t : RespTraffic) (hv : Doc
                     simp only [hres, Bool.not_true, Bool.false_eq_true, if_false]
                     split
                     · rfl
-                    · exact visit_not_bad _ _ hres hung
+                    · exact visit_not_bad _ _ hres hung hcp2
           · exact hh
 
 /-- `ConvertErrors` never panics on the errors the validators build (enum errors carry their schema) -/
@@ -383,27 +399,55 @@ structure Scenario where
   req : ReqTraffic
   resp : RespTraffic
   errs : List ReqErrM        -- the request errors handed to ConvertErrors
+  details : Bool             -- !SchemaErrorDetailsDisabled and no message customizer that answers
 
 def ExclC10 (s : Scenario) : Bool := ExclOp s.op
 
-/-- C10 on the model, partial: a valid document without an unguarded reference cycle (F-C10-1, the one open
-    finding) cannot be made to panic or recurse without bound by any traffic through the legacy router, the
-    gorilla router's port branch, ValidateRequest, ValidateResponse and ConvertErrors -/
+/-- the text of the error `ValidateRequest` returned (`err.Error()`, also what `http.Error(w, err.Error(), 400)` and
+    the `ValidationErrorEncoder` write) can be produced — unless the traffic made a decoder produce a value that
+    cannot be JSON-encoded (F-C10-6) -/
+theorem requestErrorText_no_panic_partial (op : OpM) (t : ReqTraffic) (details : Bool) (hv : DocValid op = true)
+    (hx : ExclOp op = false) (hcp : UncopyableReq op t = false) (hj : UnencodableReq op t = false) :
+    (errorText details (validateRequest op t)).bad = false :=
+  errorText_of_printable _ _ (validateRequest_no_panic_partial op t hv hx hcp) (validateRequest_printable op t hj)
+
+theorem responseErrorText_no_panic_partial (op : OpM) (t : RespTraffic) (details : Bool) (hv : DocValid op = true)
+    (hx : ExclOp op = false) (hcp : UncopyableResp op t = false) (hj : UnencodableResp op t = false) :
+    (errorText details (validateResponse op t)).bad = false :=
+  errorText_of_printable _ _ (validateResponse_no_panic_partial op t hv hx hcp) (validateResponse_printable op t hj)
+
+/-- with `SchemaErrorDetailsDisabled` the text is always produced (full strength, no exclusion for F-C10-6) -/
+theorem errorText_without_details (o : Out) (h : o.bad = false) : (errorText false o).bad = false := by
+  cases o with
+  | ok => rfl
+  | err p => cases p <;> rfl
+  | panic s => simp [Out.bad] at h
+  | diverge => simp [Out.bad] at h
+
+/-- C10 on the model, partial: a valid document without an unguarded reference cycle (F-C10-1) cannot be made to
+    panic or recurse without bound by any traffic through the legacy router, the gorilla router's port branch,
+    ValidateRequest, ValidateResponse and ConvertErrors; and the returned errors can be printed unless a decoded
+    value is not JSON-encodable (F-C10-6) -/
 theorem valid_doc_no_panic_partial (s : Scenario) (hv : DocValid s.op = true) (hx : ExclC10 s = false)
     (herr : ∀ e ∈ s.errs, ErrWF e = true) :
     (∀ site, legacyFindRoute s.servers s.paths s.method s.rawURL s.urlPath ≠ .panic site) ∧
     (∀ u ∈ s.servers, gorillaPortBranch u ≠ .panic) ∧
-    (validateRequest s.op s.req).bad = false ∧
-    (validateResponse s.op s.resp).bad = false ∧
-    (∀ e ∈ s.errs, (convertErrors e).bad = false) :=
+    (UncopyableReq s.op s.req = false → (validateRequest s.op s.req).bad = false) ∧
+    (UncopyableResp s.op s.resp = false → (validateResponse s.op s.resp).bad = false) ∧
+    (∀ e ∈ s.errs, (convertErrors e).bad = false) ∧
+    (UncopyableReq s.op s.req = false → UnencodableReq s.op s.req = false →
+      (errorText s.details (validateRequest s.op s.req)).bad = false) ∧
+    (UncopyableResp s.op s.resp = false → UnencodableResp s.op s.resp = false →
+      (errorText s.details (validateResponse s.op s.resp)).bad = false) :=
   ⟨legacyFindRoute_no_panic _ _ _ _ _, fun u _ => gorillaPortBranch_no_panic u,
    validateRequest_no_panic_partial _ _ hv hx, validateResponse_no_panic_partial _ _ hv hx,
-   fun e he => convertErrors_no_panic e (herr e he)⟩
+   fun e he => convertErrors_no_panic e (herr e he),
+   requestErrorText_no_panic_partial _ _ _ hv hx, responseErrorText_no_panic_partial _ _ _ hv hx⟩
 
 /-! ## witnesses inside the exclusion, non-vacuity outside -/
 
 def sOK : SchemaM := ⟨true, false⟩
-def bitsAny : Bits := ⟨true, false, false, false, false⟩
+def bitsAny : Bits := ⟨true, false, false, false, false, true, false⟩
 
 /-- regression of F-C10-4: content parameter whose media type has no schema, parameter present in the request:
     decoded, not validated -/
@@ -415,7 +459,22 @@ theorem content_param_no_schema_regression :
 theorem unguarded_body_witness :
     let op : OpM := ⟨[], some ⟨false, false, [⟨some ⟨true, true⟩⟩]⟩, []⟩
     DocValid op = true ∧ ExclOp op = true ∧
-    validateRequest op ⟨fun _ => bitsAny, ⟨false, some 0, bitsAny⟩⟩ = .diverge := by decide
+    validateRequest op ⟨false, fun _ => bitsAny, ⟨false, some 0, bitsAny⟩⟩ = .diverge := by decide
+
+/-- witness F-C10-6: `GET /a?q=NaN&q=1`, q an array of numbers with maxItems 1 — the document is valid and free of
+    reference cycles, `ValidateRequest` returns an error normally, and producing its text panics -/
+theorem unencodable_value_witness :
+    let op : OpM := ⟨[⟨false, true, false, false, some sOK, false, 0, none⟩], none, []⟩
+    let t : ReqTraffic := ⟨false, fun _ => ⟨true, true, false, false, false, false, false⟩, ⟨true, none, bitsAny⟩⟩
+    DocValid op = true ∧ ExclOp op = false ∧ UncopyableReq op t = false ∧ UnencodableReq op t = true ∧
+    validateRequest op t = .err false ∧ (errorText true (validateRequest op t)).bad = true := by decide
+
+/-- witness F-C10-7: `POST /a`, `Content-Type: application/yaml`, body `~: 1` against `{oneOf: [{type: object}]}` —
+    valid document without reference cycles, `ValidateRequest` itself panics (in `deepcopy.Copy`) -/
+theorem uncopyable_key_witness :
+    let op : OpM := ⟨[], some ⟨false, false, [⟨some sOK⟩]⟩, []⟩
+    let t : ReqTraffic := ⟨false, fun _ => bitsAny, ⟨false, some 0, ⟨true, false, false, false, false, true, true⟩⟩⟩
+    DocValid op = true ∧ ExclOp op = false ∧ UncopyableReq op t = true ∧ (validateRequest op t).bad = true := by decide
 
 /-- what the document gate is needed for: an unresolved reference panics -/
 theorem unresolved_ref_panics :
@@ -431,9 +490,11 @@ def opEx : OpM :=
 /-- non-vacuity: a non-trivial operation (styled, content-defined and schema-less parameters, a body with
     two media types, a response with a content-defined and a schema-defined header) satisfies the hypotheses -/
 example : DocValid opEx = true ∧ ExclOp opEx = false := by decide
-example : validateRequest opEx ⟨fun _ => bitsAny, ⟨false, some 0, bitsAny⟩⟩ = .err := by decide
-example : validateResponse opEx ⟨false, some 0, fun _ => ⟨true, false, false, false, true⟩, false,
-    ⟨false, some 0, ⟨true, false, false, false, true⟩⟩⟩ = .ok := by decide
+example : validateRequest opEx ⟨false, fun _ => bitsAny, ⟨false, some 0, bitsAny⟩⟩ = .err true := by decide
+example : UnencodableReq opEx ⟨true, fun _ => bitsAny, ⟨false, some 0, bitsAny⟩⟩ = false := by decide
+example : validateResponse opEx ⟨false, some 0, fun _ => ⟨true, false, false, false, true, true, false⟩, false,
+    ⟨false, some 0, ⟨true, false, false, false, true, true, false⟩⟩⟩ = .ok := by decide
+example : UncopyableReq opEx ⟨true, fun _ => bitsAny, ⟨false, some 0, bitsAny⟩⟩ = false := by decide
 example : ErrWF ⟨true, .schema [⟨true, false⟩, ⟨false, true⟩]⟩ = true := by decide
 theorem convert_enum_without_schema_panics : (convertErrors ⟨true, .schema [⟨true, true⟩]⟩).bad = true := by decide
 
